@@ -154,7 +154,7 @@ TYPES = [('', 0), ('a', 1), ('*', 0), ('p|a', 1), ('*|b', 1), ('|c', 1), ('p|*',
 SUFFIX = [('#i', (1, 0, 0)), ('.c', (0, 1, 0)), ('[x]', (0, 1, 0)), ('[x=y]', (0, 1, 0)), ('[x~="y z"]', (0, 1, 0)), ('[x|=y]', (0, 1, 0)), ('[x^=y]', (0, 1, 0)), ('[x$=y]', (0, 1, 0)), ('[x*=y]', (0, 1, 0)),
           ('[p|x=y]', (0, 1, 0)), (':hover', (0, 0, 0)), (':HOVER', (0, 0, 0)), (':lang(fr)', (0, 0, 0)), (':nth-child(2n+1)', (0, 0, 0)), (':nth-of-type(odd)', (0, 0, 0)), (':nth-child(-n+3)', (0, 0, 0)),
           ('::before', (0, 0, 1)), (':after', (0, 0, 1)), (':first-line', (0, 0, 1)), (':First-Letter', (0, 0, 1)), ('::BEFORE', (0, 0, 1)),
-          (':not(.d)', (0, 1, 0)), (':not(#j)', (1, 0, 0)), (':not(e)', (0, 0, 1)), (':NOT([x])', (0, 1, 0)), (':not(:hover)', (0, 0, 0)), (':not(*)', (0, 0, 0)), (':not(p|e)', (0, 0, 1))]
+          (':not(.d)', (0, 1, 0)), (':n\\ot(.d)', (0, 1, 0)), (':N\\OT(e)', (0, 0, 1)), (':not(#j)', (1, 0, 0)), (':not(e)', (0, 0, 1)), (':NOT([x])', (0, 1, 0)), (':not(:hover)', (0, 0, 0)), (':not(*)', (0, 0, 0)), (':not(p|e)', (0, 0, 1))]
 COMBINATORS = [' ', '>', '+', '~', ' > ', '  +  ', ' /*c*/ ', '\n~\t']
 NS = {'p': 'http://p', '': None}
 
@@ -168,7 +168,7 @@ def compounds(max_suffix):
                     continue
                 txt = t + ''.join(c[0] for c in combo)
                 # a pseudo-element ends its compound; nothing may follow it
-                pe = [i for i, c in enumerate(combo) if c[1] == (0, 0, 1) and not c[0].lower().startswith(':not')]
+                pe = [i for i, c in enumerate(combo) if c[1] == (0, 0, 1) and not c[0].lower().replace('\\', '').startswith(':not')]
                 if pe and pe[0] != len(combo) - 1:
                     continue
                 b = sum(c[1][0] for c in combo)
@@ -212,7 +212,7 @@ def _h_job(args):
 
 
 def r16h(chk, rid='R16.h', thorough=False):
-    chk.rule(rid, 'specificity and round trip of generated selectors, decided by evaluation of the whole selector pipeline - Tokenizer.tokenize, Selector._prepare_tokens, the parse loop Base._parse, the state machine of New (append and every handler), the commit in Selector._setSelectorText, and the writer CSSSerializer.do_css_Selector with Out and helper.string - each on its own syntax tree: for compounds of type / universal selectors with and without namespace prefix, ids, classes, attribute selectors with every operator, pseudo-classes (plain, functional with an+b arguments), pseudo-elements in one- and two-colon form, :not() with every kind of argument, in lower, upper and mixed case, joined by the four combinators written with and without white space and comments: the selector is accepted, its specificity is the count known by construction, and the written text reparses to the same sequence with the same specificity and is a fixpoint')
+    chk.rule(rid, 'specificity and round trip of generated selectors, decided by evaluation of the whole selector pipeline - Tokenizer.tokenize, Selector._prepare_tokens, the parse loop Base._parse, the state machine of New (append and every handler), the commit in Selector._setSelectorText, and the writer CSSSerializer.do_css_Selector with Out and helper.string - each on its own syntax tree: for compounds of type / universal selectors with and without namespace prefix, ids, classes, attribute selectors with every operator, pseudo-classes (plain, functional with an+b arguments), pseudo-elements in one- and two-colon form, :not() with every kind of argument, in lower, upper and mixed case and with an escape in the name, joined by the four combinators written with and without white space and comments: the selector is accepted, its specificity is the count known by construction, and the written text reparses to the same sequence with the same specificity and is a fixpoint')
     chk.assume('R16.h: the selector is detached (its own namespace map with one prefix); logging is a stub; compounds with up to one (thorough: two) simple selectors behind the type part, complex selectors of two compounds for every combinator spelling over a reduced compound set, three compounds for the plain spellings')
     import multiprocessing as mp
 
